@@ -387,3 +387,53 @@ def run(repo: Repo, rep: Report, tier: str) -> None:
     for form, okf in forms.items():
         rep.check(okf, "C15-R15", f"inliner records the returned entity for `return {'<name>' if form == 'name' else 'place(...)'}`", "channel filled under that form" if okf else
                   "the channel is never filled for this form: `func make(int x) { return place(\"small-lamp\", x, 0); } Entity l = make(3); l.enable = ...;` loses the write", inl.loc(ret_br[0]))
+
+    # ---------------- R16 --------------------------------------------------------------
+    rep.rule("C15-R16", "a function body is the statement list the program wrote: the transformer's func_decl keeps every statement class the grammar allows inside `{ }` (all "
+             "subclasses of Statement in ast/statements.py); a class missing from its filter is dropped without a diagnostic — the body compiles, the statements are gone")
+    stm = repo.module("ast.statements")
+    stmt_classes = sorted(c.name for c in stm.classes.values() if any(norm(b) == "Statement" for b in c.node.bases))
+    rep.floor("C15-R16", "statement classes", len(stmt_classes), 6)
+    fd = repo.func("DSLTransformer.func_decl")
+    tests16 = [n.test for n in walk_local(fd.node) if isinstance(n, ast.If) and any(isinstance(b, ast.Expr) and isinstance(b.value, ast.Call) and call_name(b.value) == "append" for b in n.body)]
+    if not tests16:
+        raise AnalysisError("C15-R16: the body filter of DSLTransformer.func_decl was not found")
+    def _accepted(test) -> set[str] | None:
+        t = norm(test)
+        acc: set[str] = set()
+        found = False
+        for x in ast.walk(test):
+            # name-based filter: "Stmt" in <obj>.__class__.__name__  /  <obj>.__class__.__name__ in [...]
+            if isinstance(x, ast.Compare) and isinstance(x.ops[0], ast.In) and "__class__.__name__" in norm(x):
+                found = True
+                if isinstance(x.left, ast.Constant) and isinstance(x.left.value, str):
+                    acc |= {c for c in stmt_classes if x.left.value in c}
+                elif isinstance(x.comparators[0], (ast.List, ast.Tuple, ast.Set)):
+                    acc |= {e.value for e in x.comparators[0].elts if isinstance(e, ast.Constant)}
+            if isinstance(x, ast.Call) and call_name(x) == "isinstance" and len(x.args) == 2:
+                found = True
+                cls_arg = x.args[1]
+                names = []
+                if isinstance(cls_arg, ast.Tuple):
+                    names = [norm(e) for e in cls_arg.elts]
+                elif isinstance(cls_arg, ast.Name):
+                    try:
+                        from ..core import module_const as _mc16
+                        val = None
+                        for st in fd.module.tree.body:
+                            if isinstance(st, ast.Assign) and any(isinstance(t_, ast.Name) and t_.id == cls_arg.id for t_ in st.targets) and isinstance(st.value, ast.Tuple):
+                                val = [norm(e) for e in st.value.elts]
+                        names = val if val is not None else [cls_arg.id]
+                    except Exception:  # noqa: BLE001
+                        names = [cls_arg.id]
+                if "Statement" in names:
+                    acc |= set(stmt_classes)
+                acc |= set(names)
+        return acc if found else None
+    for i16, t16 in enumerate(tests16):
+        acc16 = _accepted(t16)
+        if acc16 is None:
+            continue
+        missing = [c for c in stmt_classes if c not in acc16 and c != "ImportStmt"]
+        rep.check(not missing, "C15-R16", f"DSLTransformer.func_decl: body filter #{i16 + 1} keeps every statement class", f"accepts {sorted(acc16 & set(stmt_classes))}" if not missing else
+                  f"{missing} fall through the filter: a `for` loop (or that statement kind) written in a function body is silently left out of the function", fd.loc(t16))
